@@ -1145,6 +1145,8 @@ def _spec_fill(K, method, pattern, vals, i):
     if method == "nearest":
         cand = [j for j in (prev, nxt) if j is not None]
         return vals[min(cand, key=lambda j: (abs(j - i), j))]
+    if prev is not None and nxt is not None and method == "log_linear":      # the straight line between the LOGS of the neighbours
+        return K.exp(K.log(vals[prev]) + (K.log(vals[nxt]) - K.log(vals[prev])) * K.frac(fractions.Fraction(i - prev, nxt - prev)))
     if prev is not None and nxt is not None:                      # linear
         return vals[prev] + (vals[nxt] - vals[prev]) * K.frac(fractions.Fraction(i - prev, nxt - prev))
     return vals[prev if prev is not None else nxt]
@@ -1152,14 +1154,15 @@ def _spec_fill(K, method, pattern, vals, i):
 
 @contract("C10", targets=["irispie.series._filling:_fill_neighbor", "irispie.series._filling:_fill_interp", "irispie.series._filling:_fill_constant",
                           "irispie.series._filling:_next_index", "irispie.series._filling:_previous_index", "irispie.series._filling:_nearest_index",
-                          "irispie.series._filling:_interpolation_linear", "irispie.series._filling:_FILL_METHOD_DISPATCH"],
-          instances=[(m, p) for m in ("previous", "next", "nearest", "linear", "constant") for p in _PATTERNS], cross=3, opts={"max_paths": 2000})
+                          "irispie.series._filling:_interpolation_linear", "irispie.series._filling:_interpolation_log_linear", "irispie.series._filling:_FILL_METHOD_DISPATCH"],
+          instances=[(m, p) for m in ("previous", "next", "nearest", "linear", "constant") for p in _PATTERNS]
+                    + [("log_linear", p) for p in _PATTERNS if any(p) and not all(p)], cross=3, opts={"max_paths": 2000})
 def filling_one_column(K, method, pattern):
     """The column-level fillers behind fill_missing, for EVERY pattern of missing values in four periods and arbitrary
     observed values: an observed period keeps its value; a missing period takes the previous / next / nearest observation
     (the earlier one at equal distance), the value on the straight line between its neighbours (the single neighbour's
     value at the ends), or the constant; where the method has no source the period stays missing."""
-    vals = [K.real(f"v{j}") for j in range(4)]
+    vals = [K.real(f"v{j}", positive=(method == "log_linear"), sample=(0.5, 3) if method == "log_linear" else None) for j in range(4)]
     data = K.array_cells([K.nan_cell() if miss else K.real_cell(v) for miss, v in zip(pattern, vals)])
     out = K.call(FILL._FILL_METHOD_DISPATCH[method], data, 7 if method == "constant" else None)
     K.ensure("four periods in, four periods out", K.shape(out) == (4,))
@@ -1291,3 +1294,48 @@ def missing_value_queries_agree_with_the_view(K, nv):
     K.ensure("count_missing is a number of cells, not a truth value", is_truth_value is False)
     if is_truth_value is False:
         K.ensure("count_missing counts the missing cells among those read", got_count == count)
+
+
+# ------------------------------------------------------------------------------ replace_where; fill from another series; log-linear interpolation
+@contract("C10", targets=[P + "Series.replace_where", P + "Series.trim"], instances=[(c, n) for c in CLS[:1] for n in NV], opts={"max_paths": 3000})
+def replace_where_changes_exactly_the_cells_that_pass_the_test(K, cls, nv):
+    """x.replace_where(test, v): every observation for which test is true becomes v, every other cell (missing ones
+    included - a comparison with a missing value is false) stays; RI afterwards."""
+    x, xs, xd = mk_series(K, "x", cls, nv)
+    old = K.snapshot(xd)
+    bound = K.real("bound")
+    v = K.real("v")
+    K.method(x, "replace_where", K.callable(lambda data: K.compare(">", data, bound)), v)
+    ns, nd = state(K, x)
+    t, c = generic_cell(K, cls, nv)
+    K.instantiate(t)
+    a = V(K, xs, old, t, c)
+    want = K.cell_ite(K.And(K.Not(K.cell_is_nan(a)), K.cell_val(a) > bound), lambda: K.real_cell(v), lambda: a)
+    K.ensure("cells passing the test take the new value, the others stay", K.cell_eq(V(K, ns, nd, t, c), want))
+    K.ensure("RI", RI(K, x, nv, cls))
+
+
+@contract("C10", targets=["irispie.series._filling:fill_from_series", "irispie.series._filling:Inlay.fill_missing", "irispie.series._filling:fill_missing"],
+          instances=[(p,) for p in _PATTERNS if not p[0] and not p[3] and any(p)], cross=3, opts={"max_paths": 3000})
+def fill_missing_from_another_series(K, pattern):
+    """fill_missing(x, "from_series", f): a missing period of x takes f's value of the SAME period (missing if f has none
+    there), observed periods keep theirs; f and the input are left alone."""
+    cls = CLS[0]
+    lo, hi = ser(K, cls)
+    start = K.int("x_start", lo, hi)
+    vals = [K.real(f"v{j}") for j in range(4)]
+    data = K.array_cells([[K.nan_cell() if miss else K.real_cell(v)] for miss, v in zip(pattern, vals)])
+    x = K.obj(Series, start=K.obj(cls, serial=start), data=data, data_type=np.float64, metadata={}, __description__="")
+    f, fs, fd = mk_series(K, "f", cls, 1)
+    oldf = K.snapshot(fd)
+    r = K.call(FILL.fill_missing, x, "from_series", f)
+    rs, rd = state(K, r)
+    for i in range(4):
+        K.instantiate(start + i)
+        want = V(K, fs, oldf, start + i, 0) if pattern[i] else K.real_cell(vals[i])
+        K.ensure(f"period {i}", K.cell_eq(V(K, rs, rd, start + i, 0), want))
+    nfs, nfd = state(K, f)
+    t = K.int("t", lo - 30, hi + 60)
+    K.instantiate(t)
+    K.ensure("the source series is left alone", K.cell_eq(V(K, nfs, nfd, t, 0), V(K, fs, oldf, t, 0)))
+    K.ensure("a new series", r is not x and not K.same_buffer(rd, K.attr(x, "data")))
